@@ -243,30 +243,51 @@ func scalarFields(m *model) []string {
 	return out
 }
 
+type scalarCol struct {
+	idx     int
+	name    string
+	deleted bool // gorm.DeletedAt
+}
+
+var scalarCache = map[*model][]scalarCol{}
+
+func scalarCols(m *model) []scalarCol {
+	if c, ok := scalarCache[m]; ok {
+		return c
+	}
+	var c []scalarCol
+	for i := 0; i < m.typ.NumField(); i++ {
+		if sf := m.typ.Field(i); m.rel(sf.Name) == nil {
+			c = append(c, scalarCol{i, sf.Name, sf.Type == deletedAtT})
+		}
+	}
+	scalarCache[m] = c
+	return c
+}
+
 // rowRender renders the columns for which keep is true (nil: all).
 func rowRender(m *model, r row, keep func(string) bool) string {
 	rv := reflect.Indirect(r)
 	var sb strings.Builder
 	sb.WriteString(m.name + "{")
 	first := true
-	for i := 0; i < m.typ.NumField(); i++ {
-		sf := m.typ.Field(i)
-		if m.rel(sf.Name) != nil || (keep != nil && !keep(sf.Name)) {
+	for _, c := range scalarCols(m) {
+		if keep != nil && !keep(c.name) {
 			continue
 		}
 		if !first {
 			sb.WriteByte(' ')
 		}
 		first = false
-		if sf.Type == deletedAtT {
-			if rv.Field(i).Interface().(gorm.DeletedAt).Valid {
+		if c.deleted {
+			if rv.Field(c.idx).Interface().(gorm.DeletedAt).Valid {
 				sb.WriteString("deleted")
 			} else {
 				sb.WriteString("live")
 			}
 			continue
 		}
-		sb.WriteString(sf.Name + "=" + getVal(rv.Field(i)).String())
+		sb.WriteString(c.name + "=" + getVal(rv.Field(c.idx)).String())
 	}
 	sb.WriteByte('}')
 	return sb.String()
@@ -420,9 +441,17 @@ type load struct {
 	Pick     int           `json:"pick,omitempty"`    // struct: index of the parent row
 	Joins    []joinSpec    `json:"joins,omitempty"`
 	Preloads []preloadSpec `json:"preloads,omitempty"`
-	Assoc    string        `json:"assoc,omitempty"`
-	OutPtr   bool          `json:"out_ptr,omitempty"`
-	Cond     *cond         `json:"cond,omitempty"`
+	// Shared: the query is derived from a reusable Session handle that already
+	// carries Pads filler joins, the duplicating join and all but the last
+	// association join; a sibling query (the same, with the last join replaced by
+	// Sibling, or by one more filler join when Sibling is nil) is derived from the
+	// same handle BEFORE this one runs, then both run and both are checked.
+	Shared  bool      `json:"shared,omitempty"`
+	Pads    int       `json:"pads,omitempty"`
+	Sibling *joinSpec `json:"sibling,omitempty"`
+	Assoc   string    `json:"assoc,omitempty"`
+	OutPtr  bool      `json:"out_ptr,omitempty"`
+	Cond    *cond     `json:"cond,omitempty"`
 }
 
 func (l load) String() string { b, _ := json.Marshal(l); return string(b) }
@@ -555,6 +584,13 @@ func (l load) feedRoles(f *family) map[role]bool {
 		}
 	}
 	walk(root, l.plan(root))
+	if l.Shared {
+		// the sibling query preloads what this one joins
+		l2, _ := l.siblingLoad()
+		for k := range l2.feedRoles(f) {
+			out[k] = true
+		}
+	}
 	return out
 }
 
@@ -563,9 +599,38 @@ func (l load) feedRoles(f *family) map[role]bool {
 type graph struct {
 	fam  *family
 	rows map[string][]row
+	idx  map[string]map[string][]row // lookup cache: model|fields -> typed tuple text -> rows (table order)
+	desc string                      // compact description (wide graphs), "" = render every row
+}
+
+// lookup returns the rows of a model whose tuple over fields equals key (typed
+// equality; a NULL part equals nothing). The mirror is immutable once drawn, so
+// the per-(model, fields) index is built once.
+func (g *graph) lookup(m *model, fields []string, key tuple) []row {
+	if key.hasNull() {
+		return nil
+	}
+	id := m.name + "|" + strings.Join(fields, ",")
+	if g.idx == nil {
+		g.idx = map[string]map[string][]row{}
+	}
+	ix, ok := g.idx[id]
+	if !ok {
+		ix = map[string][]row{}
+		for _, r := range g.rows[m.name] {
+			if t := tupleOf(r, fields); !t.hasNull() {
+				ix[t.String()] = append(ix[t.String()], r)
+			}
+		}
+		g.idx[id] = ix
+	}
+	return ix[key.String()]
 }
 
 func (g *graph) String() string {
+	if g.desc != "" {
+		return g.desc
+	}
 	var sb strings.Builder
 	sb.WriteString("group " + g.fam.name + ":")
 	for _, m := range g.fam.models {
@@ -577,10 +642,8 @@ func (g *graph) String() string {
 }
 
 func (g *graph) find(m *model, pk tuple) row {
-	for _, r := range g.rows[m.name] {
-		if eqt(tupleOf(r, m.pk), pk) {
-			return r
-		}
+	if rs := g.lookup(m, m.pk, pk); len(rs) > 0 {
+		return rs[0]
 	}
 	return reflect.Value{}
 }
@@ -939,7 +1002,7 @@ func store(d *testdb.DB, g *graph) error {
 		for _, r := range rows {
 			sl.Elem().Set(reflect.Append(sl.Elem(), r.Elem()))
 		}
-		if err := d.Session(&gorm.Session{}).Omit(clause.Associations).Create(sl.Interface()).Error; err != nil {
+		if err := d.Session(&gorm.Session{}).Omit(clause.Associations).CreateInBatches(sl.Interface(), 250).Error; err != nil {
 			return fmt.Errorf("insert %s: %w", m.name, err)
 		}
 	}
@@ -972,9 +1035,6 @@ func (g *graph) related(r *rel, owner row, s scope) []row {
 	own := tupleOf(owner, r.own)
 	var out []row
 	match := func(c row, key tuple) {
-		if !eqt(key, tupleOf(c, r.tgt)) {
-			return
-		}
 		if r.polyField != "" && field(c, r.polyField).String() != r.polyValue {
 			return
 		}
@@ -983,17 +1043,15 @@ func (g *graph) related(r *rel, owner row, s scope) []row {
 		}
 	}
 	if r.kind == many2many {
-		for _, j := range g.rows[r.join] {
-			if !eqt(own, tupleOf(j, r.jOwn)) {
-				continue
-			}
-			for _, c := range g.rows[tm.name] {
-				match(c, tupleOf(j, r.jRel))
+		for _, j := range g.lookup(g.fam.m(r.join), r.jOwn, own) {
+			key := tupleOf(j, r.jRel)
+			for _, c := range g.lookup(tm, r.tgt, key) {
+				match(c, key)
 			}
 		}
 		return out
 	}
-	for _, c := range g.rows[tm.name] {
+	for _, c := range g.lookup(tm, r.tgt, own) {
 		match(c, own)
 	}
 	return out
@@ -1245,13 +1303,7 @@ func (g *graph) hostileAround(owner *model, r *rel) bool {
 		if t.allBlank() {
 			continue
 		}
-		found := false
-		for _, y := range g.rows[tgtM.name] {
-			if eqt(t, tupleOf(y, tgtF)) {
-				found = true
-			}
-		}
-		if !found {
+		if len(g.lookup(tgtM, tgtF, t)) == 0 {
 			return true
 		}
 	}
@@ -1294,45 +1346,36 @@ func curCol(name string) clause.Column { return clause.Column{Table: clause.Curr
 
 const dupJoin = "JOIN (SELECT 1 AS n UNION ALL SELECT 2 AS n) AS dup ON 1 = 1"
 
-// runQuery performs the Preload/Joins load and returns the destination.
-func runQuery(d *testdb.DB, g *graph, l load, dest reflect.Value) error {
-	root := g.fam.m(l.Root)
-	tx := d.Session(&gorm.Session{})
-	if l.Unscoped {
-		tx = tx.Unscoped()
-	}
-	if l.Dup {
-		tx = tx.Joins(dupJoin)
-	}
-	for _, j := range l.Joins {
-		var args []interface{}
-		if j.On != nil || j.subset() {
-			on := d.Session(&gorm.Session{NewDB: true})
-			name := func(fn string) string {
-				if j.DBNames {
-					return colName(d.DB, fn)
-				}
-				return fn
+func padJoin(i int) string {
+	return fmt.Sprintf("JOIN (SELECT 1 AS n%d) AS pad%d ON 1 = 1", i, i)
+}
+
+// addJoin appends one association join to the chain.
+func addJoin(tx *gorm.DB, d *testdb.DB, g *graph, root *model, j joinSpec) *gorm.DB {
+	var args []interface{}
+	if j.On != nil || j.subset() {
+		on := d.Session(&gorm.Session{NewDB: true})
+		name := func(fn string) string {
+			if j.DBNames {
+				return colName(d.DB, fn)
 			}
-			if len(j.Select) > 0 {
-				cols := make([]string, len(j.Select))
-				for i, fn := range j.Select {
-					cols[i] = name(fn)
-				}
-				on = on.Select(cols)
+			return fn
+		}
+		if len(j.Select) > 0 {
+			cols := make([]string, len(j.Select))
+			for i, fn := range j.Select {
+				cols[i] = name(fn)
 			}
-			if len(j.Omit) > 0 {
-				cols := make([]string, len(j.Omit))
-				for i, fn := range j.Omit {
-					cols[i] = name(fn)
-				}
-				on = on.Omit(cols...)
+			on = on.Select(cols)
+		}
+		if len(j.Omit) > 0 {
+			cols := make([]string, len(j.Omit))
+			for i, fn := range j.Omit {
+				cols[i] = name(fn)
 			}
-			args = append(args, on)
+			on = on.Omit(cols...)
 		}
 		if j.On != nil {
-			on := args[0].(*gorm.DB)
-			args = args[:0]
 			if j.On.Form == "on-struct" {
 				// struct conditions are qualified with the join alias (a map or a
 				// string condition is not: "ambiguous column" on self joins)
@@ -1342,13 +1385,44 @@ func runQuery(d *testdb.DB, g *graph, l load, dest reflect.Value) error {
 			} else {
 				on = on.Where(clause.Gte{Column: curCol("tag"), Value: j.On.K})
 			}
-			args = append(args, on)
 		}
-		if j.Inner {
-			tx = tx.InnerJoins(j.Rel, args...)
-		} else {
-			tx = tx.Joins(j.Rel, args...)
-		}
+		args = append(args, on)
+	}
+	if j.Inner {
+		return tx.InnerJoins(j.Rel, args...)
+	}
+	return tx.Joins(j.Rel, args...)
+}
+
+// buildBase starts the chain: scope, filler joins, duplicating join and the
+// first n association joins.
+func buildBase(d *testdb.DB, g *graph, l load, n int) *gorm.DB {
+	root := g.fam.m(l.Root)
+	tx := d.Session(&gorm.Session{})
+	if l.Unscoped {
+		tx = tx.Unscoped()
+	}
+	for i := 0; i < l.Pads; i++ {
+		tx = tx.Joins(padJoin(i))
+	}
+	if l.Dup {
+		tx = tx.Joins(dupJoin)
+	}
+	for _, j := range l.Joins[:n] {
+		tx = addJoin(tx, d, g, root, j)
+	}
+	return tx
+}
+
+// finishQuery adds the remaining joins (from index n), the preloads and the
+// parent filter; it does not execute.
+func finishQuery(tx *gorm.DB, d *testdb.DB, g *graph, l load, n int, extraPad bool) *gorm.DB {
+	root := g.fam.m(l.Root)
+	for _, j := range l.Joins[n:] {
+		tx = addJoin(tx, d, g, root, j)
+	}
+	if extraPad {
+		tx = tx.Joins(padJoin(99))
 	}
 	for _, p := range l.Preloads {
 		var args []interface{}
@@ -1366,12 +1440,36 @@ func runQuery(d *testdb.DB, g *graph, l load, dest reflect.Value) error {
 			}
 			tx = tx.Where(clause.Eq{Column: curCol(colName(d.DB, fn)), Value: v})
 		}
-		return tx.Take(dest.Interface()).Error
+		return tx
 	}
 	if l.MinTag > 0 {
 		tx = tx.Where(clause.Gte{Column: curCol("tag"), Value: l.MinTag})
 	}
+	return tx
+}
+
+func execQuery(tx *gorm.DB, l load, dest reflect.Value) error {
+	if l.Shape == "struct" {
+		return tx.Take(dest.Interface()).Error
+	}
 	return tx.Find(dest.Interface()).Error
+}
+
+// runQuery performs the Preload/Joins load into dest.
+func runQuery(d *testdb.DB, g *graph, l load, dest reflect.Value) error {
+	return execQuery(finishQuery(buildBase(d, g, l, 0), d, g, l, 0, false), l, dest)
+}
+
+// siblingLoad is the load the sibling query of a Shared load performs.
+func (l load) siblingLoad() (load, bool) {
+	s := l
+	s.Shared, s.Sibling, s.Reload = false, nil, false
+	s.Joins = append([]joinSpec(nil), l.Joins[:len(l.Joins)-1]...)
+	if l.Sibling != nil {
+		s.Joins = append(s.Joins, *l.Sibling)
+		return s, false
+	}
+	return s, true // one more filler join instead
 }
 
 // referenceRows computes the rows a Joins query must return: per admitted
@@ -1452,6 +1550,26 @@ func resultRows(g *graph, l load, elems []reflect.Value) []string {
 // checkQuery runs the load and compares. It returns the violation text ("" = held)
 // and the non-triviality of the case.
 func checkQuery(d *testdb.DB, g *graph, l load) (string, bool) {
+	if !l.Shared {
+		return checkQueryWith(d, g, l, func(dest reflect.Value) error { return runQuery(d, g, l, dest) })
+	}
+	// both queries are derived from one reusable handle before either runs
+	n := len(l.Joins) - 1
+	base := buildBase(d, g, l, n).Session(&gorm.Session{})
+	q1 := finishQuery(base, d, g, l, n, false)
+	l2, pad := l.siblingLoad()
+	q2 := finishQuery(base, d, g, l2, n, pad)
+	msg, nt := checkQueryWith(d, g, l, func(dest reflect.Value) error { return execQuery(q1, l, dest) })
+	if msg != "" {
+		return "query derived first from the shared handle: " + msg, false
+	}
+	if msg2, _ := checkQueryWith(d, g, l2, func(dest reflect.Value) error { return execQuery(q2, l2, dest) }); msg2 != "" {
+		return "sibling query derived from the shared handle (" + l2.String() + "): " + msg2, false
+	}
+	return "", nt
+}
+
+func checkQueryWith(d *testdb.DB, g *graph, l load, run func(dest reflect.Value) error) (string, bool) {
 	root := g.fam.m(l.Root)
 	dest := newDest(root, l.Shape)
 	rounds := 1
@@ -1460,7 +1578,7 @@ func checkQuery(d *testdb.DB, g *graph, l load) (string, bool) {
 	}
 	nt := false
 	for round := 0; round < rounds; round++ {
-		err := runQuery(d, g, l, dest)
+		err := run(dest)
 		want := referenceRows(g, l)
 		var elems []reflect.Value
 		switch {
@@ -1696,6 +1814,12 @@ func classesOf(g *graph, l load) []string {
 	if l.Unscoped {
 		set["scope:root-unscoped"] = true
 	}
+	if l.Shared {
+		set["handle:shared-base-two-derived-queries"] = true
+		if nb := l.Pads + len(l.Joins) - 1; l.Dup && nb+1 >= 3 || nb >= 3 {
+			set["handle:shared-base-3+-joins"] = true
+		}
+	}
 	kindOf := func(m *model, name string) *rel { return m.rel(name) }
 	if l.Mode == "assoc-find" {
 		r := root.rel(l.Assoc)
@@ -1835,14 +1959,7 @@ func classesOf(g *graph, l load) []string {
 				case t.hasNull():
 					set["data:partly-null-fk"] = true
 				default:
-					found := false
-					tm := f.m(k.target)
-					for _, y := range g.rows[tm.name] {
-						if eqt(t, tupleOf(y, k.tfields)) {
-							found = true
-						}
-					}
-					if !found {
+					if len(g.lookup(f.m(k.target), k.tfields, t)) == 0 {
 						set["data:dangling-fk"] = true
 					}
 				}
@@ -1872,7 +1989,7 @@ var (
 	onForms      = []string{"on-gte", "on-struct"}
 )
 
-func genLoad(rt *rapid.T, f *family) load {
+func genLoad(rt *rapid.T, f *family, wide bool) load {
 	l := load{}
 	l.Root = rapid.SampledFrom([]string{f.name + "User", f.name + "User", f.name + "User", f.name + "User", f.name + "Company", f.name + "Pet"}).Draw(rt, "root")
 	root := f.m(l.Root)
@@ -1885,6 +2002,14 @@ func genLoad(rt *rapid.T, f *family) load {
 		}
 	}
 	l.Unscoped = rapid.IntRange(0, 7).Draw(rt, "unscoped") == 0
+	if wide {
+		// more than a thousand parents of the user model in one slice
+		l.Root, l.Dup, l.MinTag = f.name+"User", false, 0
+		root = f.m(l.Root)
+		if l.Shape == "struct" {
+			l.Shape = "slice"
+		}
+	}
 	var names []string
 	var toOne []string
 	for _, r := range root.rels {
@@ -1983,6 +2108,29 @@ func genLoad(rt *rapid.T, f *family) load {
 	for _, p := range l.Preloads {
 		if parts := strings.Split(p.Path, "."); len(parts) >= 2 && isJoined(l, parts[0]) {
 			underJoined = true
+		}
+	}
+	// shared reusable handle (needs a last association join to add on top of it)
+	if len(l.Joins) > 0 && rapid.IntRange(0, 2).Draw(rt, "shared") == 0 {
+		l.Shared, l.Reload = true, false
+		l.Pads = rapid.IntRange(0, 3).Draw(rt, "shared.pads")
+		var free []string
+		for _, n := range toOne {
+			if !isJoined(l, n) && !used[n] {
+				free = append(free, n)
+			}
+		}
+		if len(free) > 0 && rapid.Bool().Draw(rt, "shared.sibling-rel") {
+			sib := joinSpec{Rel: rapid.SampledFrom(free).Draw(rt, "shared.sibling"), Inner: rapid.IntRange(0, 3).Draw(rt, "shared.sibling.inner") == 0}
+			under := false
+			for _, p := range l.Preloads {
+				if strings.HasPrefix(p.Path, sib.Rel+".") || p.Path == sib.Rel {
+					under = true // the sibling would turn a preloaded relation into a joined one
+				}
+			}
+			if !under {
+				l.Sibling = &sib
+			}
 		}
 	}
 	// column subsets of joined relations (db.Select / db.Omit on the conditions
@@ -2090,7 +2238,7 @@ func TestC11(t *testing.T) {
 	evid.Rule(ruleText)
 	rapid.Check(t, func(rt *rapid.T) {
 		f := rapid.SampledFrom(families).Draw(rt, "group")
-		l := genLoad(rt, f)
+		l := genLoad(rt, f, false)
 		g := genGraph(rt, f, l)
 		if n := len(g.rows[l.Root]); n == 0 {
 			// the root table came out empty (only possible for non-user roots)
@@ -2105,6 +2253,169 @@ func TestC11(t *testing.T) {
 		evid.Journal(g.String() + " load " + l.String())
 		o := runCase(g, l)
 		evid.Case(o.desc, o.nt, nil, o.classes...)
+		if o.msg != "" {
+			rt.Fatalf("C11 violated: %s\n  case: %s", o.msg, o.desc)
+		}
+	})
+}
+
+// ---------------------------------------------------------------- wide graphs
+
+// wideKey derives the i-th key tuple of a model: unique per index, typed like
+// the model's key columns, without "_" in composite string parts (no idkey class).
+func wideKey(m *model, i int) tuple {
+	probe := reflect.New(m.typ)
+	t := make(tuple, len(m.pk))
+	if len(m.pk) == 1 {
+		if isStrType(field(probe, m.pk[0]).Type()) {
+			t[0] = val{Str: true, S: fmt.Sprintf("k_%d", i)}
+		} else {
+			t[0] = val{I: int64(i + 1)}
+		}
+		return t
+	}
+	a, b := i/50, i%50
+	if isStrType(field(probe, m.pk[0]).Type()) {
+		t[0] = val{Str: true, S: fmt.Sprintf("u%d", a)}
+	} else {
+		t[0] = val{I: int64(a + 1)}
+	}
+	t[1] = val{Str: true, S: fmt.Sprintf("v%d", b)}
+	return t
+}
+
+// genWide builds a graph with n users (n > 1000: more distinct parent keys than
+// fit one batch of any batched child lookup) and a few dozen children whose
+// owners are drawn mostly from the users beyond the first thousand.
+func genWide(rt *rapid.T, f *family, n int) *graph {
+	g := &graph{fam: f, rows: map[string][]row{}}
+	var sb strings.Builder
+	fmt.Fprintf(&sb, "wide group %s users=%d", f.name, n)
+	p := f.name
+	newRow := func(m *model, i int) row {
+		r := reflect.New(m.typ)
+		for j, v := range wideKey(m, i) {
+			setVal(field(r, m.pk[j]), v)
+		}
+		field(r, "Tag").SetInt(int64(i % 4))
+		if m.soft && i%4 == 3 {
+			field(r, "DeletedAt").Set(reflect.ValueOf(gorm.DeletedAt{Time: testdb.FixedNow, Valid: true}))
+		}
+		if lf := reflect.Indirect(r).FieldByName("Label"); lf.IsValid() && i%2 == 1 {
+			setVal(lf, val{Str: true, S: "x"})
+		}
+		g.rows[m.name] = append(g.rows[m.name], r)
+		return r
+	}
+	setFK := func(r row, fields []string, src row, tfields []string) {
+		for j, v := range tupleOf(src, tfields) {
+			setVal(field(r, fields[j]), v)
+		}
+	}
+	pickUser := func(label string) int {
+		if rapid.Bool().Draw(rt, label+".tail") {
+			return rapid.IntRange(1000, n-1).Draw(rt, label)
+		}
+		return rapid.IntRange(0, n-1).Draw(rt, label)
+	}
+	um, cm := f.m(p+"User"), f.m(p+"Company")
+	for i := 0; i < 3; i++ {
+		newRow(cm, i)
+	}
+	mult := rapid.SampledFrom([]int{1, 7, 13}).Draw(rt, "boss.mult")
+	off := rapid.IntRange(1, 50).Draw(rt, "boss.off")
+	fmt.Fprintf(&sb, " boss(i)=(i*%d+%d)%%n unless i%%5==0, company(i)=i%%4", mult, off)
+	for i := 0; i < n; i++ {
+		newRow(um, i)
+	}
+	for i, u := range g.rows[um.name] {
+		for _, k := range um.fks {
+			switch {
+			case k.target == um.name && i%5 != 0:
+				setFK(u, k.fields, g.rows[um.name][(i*mult+off)%n], k.tfields)
+			case k.target == cm.name && i%4 < 3:
+				setFK(u, k.fields, g.rows[cm.name][i%4], k.tfields)
+			}
+		}
+	}
+	for _, m := range f.models {
+		if m == um || m == cm {
+			continue
+		}
+		cnt := rapid.IntRange(m.minRows, 12*m.maxRows).Draw(rt, m.name+".n")
+		if len(m.fks) == 0 && m.poly == nil {
+			cnt = 3 // languages
+		}
+		fmt.Fprintf(&sb, " %s[", strings.TrimPrefix(m.name, p))
+		seen := map[string]bool{}
+		for i := 0; i < cnt; i++ {
+			r := reflect.New(m.typ)
+			if !m.isJoin {
+				r = newRow(m, i)
+			}
+			for ki, k := range m.fks {
+				rows := g.rows[k.target]
+				if len(rows) == 0 {
+					continue
+				}
+				var idx int
+				if k.target == um.name {
+					idx = pickUser(fmt.Sprintf("%s[%d].%d", m.name, i, ki))
+				} else {
+					idx = rapid.IntRange(0, len(rows)-1).Draw(rt, fmt.Sprintf("%s[%d].%d", m.name, i, ki))
+				}
+				setFK(r, k.fields, rows[idx], k.tfields)
+				fmt.Fprintf(&sb, "%d", idx)
+				if ki < len(m.fks)-1 {
+					sb.WriteByte('>')
+				}
+			}
+			if pr := m.poly; pr != nil {
+				if rapid.IntRange(0, 3).Draw(rt, "poly.company") == 0 {
+					idx := rapid.IntRange(0, 2).Draw(rt, "poly.company.idx")
+					setFK(r, []string{pr.idField}, g.rows[cm.name][idx], cm.pk)
+					field(r, pr.typeField).SetString(cm.table)
+					fmt.Fprintf(&sb, "c%d", idx)
+				} else {
+					idx := pickUser(fmt.Sprintf("%s[%d].owner", m.name, i))
+					setFK(r, []string{pr.idField}, g.rows[um.name][idx], um.pk)
+					field(r, pr.typeField).SetString(um.table)
+					fmt.Fprintf(&sb, "%d", idx)
+				}
+			}
+			sb.WriteByte(' ')
+			if m.isJoin {
+				if k := tupleOf(r, m.pk).String(); !seen[k] {
+					seen[k] = true
+					g.rows[m.name] = append(g.rows[m.name], r)
+				}
+			}
+		}
+		sb.WriteString("]")
+	}
+	g.desc = sb.String()
+	return g
+}
+
+// TestC11Wide: the same loads over graphs with more than a thousand parents.
+func TestC11Wide(t *testing.T) {
+	evid.Rule(ruleText + " | wide: 1001-1300 users (thorough: up to 2300) with index-derived keys, a few dozen children owned mostly by users beyond the first thousand, loaded as one slice")
+	rapid.Check(t, func(rt *rapid.T) {
+		f := rapid.SampledFrom(families).Draw(rt, "group")
+		max := 1300
+		if harness.Thorough() {
+			max = 2300
+		}
+		n := rapid.IntRange(1001, max).Draw(rt, "users")
+		l := genLoad(rt, f, true)
+		g := genWide(rt, f, n)
+		if class := knownClass(g, l); class != "" && harness.OpenClass("C11", class) {
+			evid.Excluded(class)
+			return
+		}
+		evid.Journal(g.String() + " load " + l.String())
+		o := runCase(g, l)
+		evid.Case(o.desc, o.nt, nil, append(o.classes, "wide:more-than-1000-parents")...)
 		if o.msg != "" {
 			rt.Fatalf("C11 violated: %s\n  case: %s", o.msg, o.desc)
 		}
